@@ -214,7 +214,9 @@ fold('scan_minmax', INTLIKE, 'any', lambda n, e: rs.ops.scan(acc_minmax, (0, 0),
 # later mutations, which makes their output depend on *when* they emit -- an aliasing artefact of such
 # accumulators (RxPY's scan has it too), not behaviour any listed property speaks about.  C09 covers the
 # mutating streaming case with the observer directly behind the scan.
-fold('scan_list', '*', lambda t, n: listof(t),
+SCALAR = INTLIKE + ('optint', 'float', 'pair')
+# streaming scan_list only over scalars: stacking it squares the output size per level
+fold('scan_list', '*', lambda t, n: listof(t) if (n[2] or t in SCALAR) else None,
      lambda n, e: rs.ops.scan(acc_append if n[2] else acc_concat, [] if n[1] == 'value' else list, reduce=n[2]),
      lambda n, c: M.Scan(acc_append if n[2] else acc_concat, list, n[2]), reduce_pos=2)
 fold('scan_term', INTLIKE, 'int', lambda n, e: rs.ops.scan(acc_sum, 0, reduce=n[1], terminator=term_101),
